@@ -913,11 +913,16 @@ theorem tdiv_mid' (b t : Int) (h : b ≤ t) : b ≤ (b + t).tdiv 2 ∧ (b + t).t
     rw [e, Int.tdiv_eq_ediv_of_nonneg (by omega)]
     omega
 
+/-- what every pushed hit satisfies: the contract, the acceptance test of `alignRecursion`, and the
+    error numerator is that of the hit -/
+def HitQ (c : Costs) (s : Seqs) (minLen num den : Int) (kh : Biogo.PalsKernel.KHit) : Prop :=
+  HitP c s kh ∧ Biogo.PalsOracle.accept minLen c.rMatchCost num den kh.h = true ∧ kh.errNum = kh.h.errNum
+
 theorem alignRecursion_ok (c : Costs) (ok : CostsOK c) (s : Seqs) (traps : Array Trap) (slot : Nat)
     (minLen num den : Int) (split : Bool) (hml : 0 ≤ minLen) :
-    ∀ (fuel : Nat) (t : Trap) (st : AState), (∀ kh ∈ st.hits, HitP c s kh) →
+    ∀ (fuel : Nat) (t : Trap) (st : AState), (∀ kh ∈ st.hits, HitQ c s minLen num den kh) →
       0 ≤ t.bottom → t.bottom ≤ t.top → t.top ≤ s.qlen →
-      ∀ kh ∈ (alignRecursion c s traps slot minLen num den split fuel t st).hits, HitP c s kh := by
+      ∀ kh ∈ (alignRecursion c s traps slot minLen num den split fuel t st).hits, HitQ c s minLen num den kh := by
   intro fuel
   induction fuel with
   | zero => intro t st h _ _ _; exact h
@@ -941,13 +946,14 @@ theorem alignRecursion_ok (c : Costs) (ok : CostsOK c) (s : Seqs) (traps : Array
     obtain ⟨rr, rc, rn, rp, rd1, rd2⟩ := rok
     simp only [] at rr rc rn rp rd1 rd2
     -- the hit, if accepted, is under contract
-    have hhit : HitP c s
+    have hhit : Biogo.PalsOracle.accept minLen c.rMatchCost num den { abpos := highEnd.maxJ, bbpos := highEnd.maxI, aepos := lowEnd.maxJ, bepos := lowEnd.maxI, score := highEnd.maxScore } = true → HitQ c s minLen num den
         { h := { abpos := highEnd.maxJ, bbpos := highEnd.maxI, aepos := lowEnd.maxJ, bepos := lowEnd.maxI,
                  score := highEnd.maxScore },
           lowDiagonal := -highEnd.maxRight, highDiagonal := -highEnd.maxLeft,
           errNum := Biogo.PalsOracle.Hit.errNum { abpos := highEnd.maxJ, bbpos := highEnd.maxI, aepos := lowEnd.maxJ,
                                                     bepos := lowEnd.maxI, score := highEnd.maxScore } } := by
-      refine ⟨?_, ?_, rn, rp, ?_, ?_⟩
+      intro hacc
+      refine ⟨⟨?_, ?_, rn, rp, ?_, ?_⟩, hacc, rfl⟩
       · have hl1 : (s.target.toList.length : Int) = s.tlen := by simp [Seqs.tlen]
         simp only []; omega
       · have hl2 : (s.query.toList.length : Int) = s.qlen := by simp [Seqs.qlen]
@@ -955,21 +961,22 @@ theorem alignRecursion_ok (c : Costs) (ok : CostsOK c) (s : Seqs) (traps : Array
       · simp only []; omega
       · simp only []; omega
     generalize hK : ({ h := { abpos := highEnd.maxJ, bbpos := highEnd.maxI, aepos := lowEnd.maxJ, bepos := lowEnd.maxI, score := highEnd.maxScore }, lowDiagonal := -highEnd.maxRight, highDiagonal := -highEnd.maxLeft, errNum := Biogo.PalsOracle.Hit.errNum { abpos := highEnd.maxJ, bbpos := highEnd.maxI, aepos := lowEnd.maxJ, bepos := lowEnd.maxI, score := highEnd.maxScore } } : Biogo.PalsKernel.KHit) = K at hhit ⊢
-    generalize (Biogo.PalsOracle.accept minLen c.rMatchCost num den { abpos := highEnd.maxJ, bbpos := highEnd.maxI, aepos := lowEnd.maxJ, bepos := lowEnd.maxI, score := highEnd.maxScore }) = acc
+    generalize (Biogo.PalsOracle.accept minLen c.rMatchCost num den { abpos := highEnd.maxJ, bbpos := highEnd.maxI, aepos := lowEnd.maxJ, bepos := lowEnd.maxI, score := highEnd.maxScore }) = acc at hhit ⊢
     generalize coverLoop traps lowEnd.maxI highEnd.maxLeft highEnd.maxRight (traps.size - (slot + 1)) (slot + 1) st.covered = cov
     -- the state after the acceptance test
-    have h1 : ∀ kh ∈ (if acc = true then ({ covered := cov, hits := st.hits.push K } : AState) else st).hits, HitP c s kh := by
+    have h1 : ∀ kh ∈ (if acc = true then ({ covered := cov, hits := st.hits.push K } : AState) else st).hits, HitQ c s minLen num den kh := by
       intro kh hk
       split at hk
-      · rcases Array.mem_push.mp hk with h | h
+      · rename_i hacc
+        rcases Array.mem_push.mp hk with h | h
         · exact hst kh h
-        · rw [h]; exact hhit
+        · rw [h]; exact hhit hacc
       · exact hst kh hk
     generalize (if acc = true then ({ covered := cov, hits := st.hits.push K } : AState) else st) = st1 at h1 ⊢
     -- the two row-wise recursive calls
     have h2 : ∀ kh ∈ (if (decide (highEnd.maxI - c.maxIGap - t.bottom > minLen) && decide (highEnd.maxI - c.maxIGap < t.top - c.maxIGap)) = true
                then alignRecursion c s traps slot minLen num den split fuel { t with top := highEnd.maxI - c.maxIGap } st1
-               else st1).hits, HitP c s kh := by
+               else st1).hits, HitQ c s minLen num den kh := by
       split
       · rename_i hc
         simp only [Bool.and_eq_true, decide_eq_true_eq] at hc
@@ -981,7 +988,7 @@ theorem alignRecursion_ok (c : Costs) (ok : CostsOK c) (s : Seqs) (traps : Array
                else st1) = st2 at h2 ⊢
     have h3 : ∀ kh ∈ (if t.top - (lowEnd.maxI + c.maxIGap) > minLen
                then alignRecursion c s traps slot minLen num den split fuel { t with bottom := lowEnd.maxI + c.maxIGap } st2
-               else st2).hits, HitP c s kh := by
+               else st2).hits, HitQ c s minLen num den kh := by
       split
       · rename_i hc
         have := ok.gap
@@ -1002,7 +1009,7 @@ theorem alignRecursion_ok (c : Costs) (ok : CostsOK c) (s : Seqs) (traps : Array
       have h4 : ∀ kh ∈ (if (decide (sideTop - sideBottom > minLen) && decide (t.left ≤ highEnd.maxLeft - 1) && decide (highEnd.maxLeft - 1 < t.right)) = true
                  then alignRecursion c s traps slot minLen num den true fuel
                    { t with bottom := sideBottom, top := sideTop, right := highEnd.maxLeft - 1 } st3
-                 else st3).hits, HitP c s kh := by
+                 else st3).hits, HitQ c s minLen num den kh := by
         split
         · rename_i hc
           simp only [Bool.and_eq_true, decide_eq_true_eq] at hc
@@ -1024,8 +1031,8 @@ def TrapsIn (qlen : Int) (traps : Array Trap) : Prop :=
 
 theorem alignLoop_ok (c : Costs) (ok : CostsOK c) (s : Seqs) (traps : Array Trap) (k minLen num den : Int) (split : Bool)
     (hml : 0 ≤ minLen) (htr : TrapsIn s.qlen traps) :
-    ∀ (n i : Nat) (st : AState), (∀ kh ∈ st.hits, HitP c s kh) →
-      ∀ kh ∈ (alignLoop c s traps k minLen num den split n i st).hits, HitP c s kh := by
+    ∀ (n i : Nat) (st : AState), (∀ kh ∈ st.hits, HitQ c s minLen num den kh) →
+      ∀ kh ∈ (alignLoop c s traps k minLen num den split n i st).hits, HitQ c s minLen num den kh := by
   intro n
   induction n with
   | zero => intro i st h; exact h
@@ -1044,9 +1051,9 @@ theorem alignLoop_ok (c : Costs) (ok : CostsOK c) (s : Seqs) (traps : Array Trap
 
 /-- **every hit the kernel model emits is under contract** (scoring `kS`), for the recursion of the
     source and for the one that also splits by diagonals -/
-theorem emittedWith_ok (split : Bool) (c : Costs) (ok : CostsOK c) (s : Seqs) (traps : List Trap) (k minLen num den : Int)
+theorem emittedWith_okQ (split : Bool) (c : Costs) (ok : CostsOK c) (s : Seqs) (traps : List Trap) (k minLen num den : Int)
     (hml : 0 ≤ minLen) (htr : TrapsIn s.qlen traps.toArray) :
-    ∀ kh ∈ emittedWith split c s traps k minLen num den, HitP c s kh := by
+    ∀ kh ∈ emittedWith split c s traps k minLen num den, HitQ c s minLen num den kh := by
   intro kh hk
   unfold emittedWith at hk
   simp only [] at hk
@@ -1054,10 +1061,22 @@ theorem emittedWith_ok (split : Bool) (c : Costs) (ok : CostsOK c) (s : Seqs) (t
   intro kh h
   exact absurd h (Array.not_mem_empty kh)
 
+theorem emittedWith_ok (split : Bool) (c : Costs) (ok : CostsOK c) (s : Seqs) (traps : List Trap) (k minLen num den : Int)
+    (hml : 0 ≤ minLen) (htr : TrapsIn s.qlen traps.toArray) :
+    ∀ kh ∈ emittedWith split c s traps k minLen num den, HitP c s kh :=
+  fun kh hk => (emittedWith_okQ split c ok s traps k minLen num den hml htr kh hk).1
+
 theorem emitted_ok (c : Costs) (ok : CostsOK c) (s : Seqs) (traps : List Trap) (k minLen num den : Int)
     (hml : 0 ≤ minLen) (htr : TrapsIn s.qlen traps.toArray) :
     ∀ kh ∈ emitted c s traps k minLen num den, HitP c s kh :=
   emittedWith_ok false c ok s traps k minLen num den hml htr
+
+/-- every emitted hit passed the acceptance test of `alignRecursion` -/
+theorem emitted_accepted (c : Costs) (ok : CostsOK c) (s : Seqs) (traps : List Trap) (k minLen num den : Int)
+    (hml : 0 ≤ minLen) (htr : TrapsIn s.qlen traps.toArray) :
+    ∀ kh ∈ emitted c s traps k minLen num den,
+      Biogo.PalsOracle.accept minLen c.rMatchCost num den kh.h = true ∧ kh.errNum = kh.h.errNum :=
+  fun kh hk => (emittedWith_okQ false c ok s traps k minLen num den hml htr kh hk).2
 
 /-! ### with valid letters the kernel's scoring is the PALS matrix -/
 
